@@ -480,4 +480,371 @@ theorem map_toNat_ofNat : ∀ (s : List Nat), (∀ y ∈ s, y.isValidChar) → (
     simp only [List.map_cons]
     rw [toNat_ofNat_valid c (h c (by simp)), map_toNat_ofNat r (fun y hy => h y (by simp [hy]))]
 
+
+-- characters ----------------------------------------------------------------------------------------------------
+
+section numbers
+open JinjaV.Spec.PyLit (G Derives digitValue digitsValueFrom digitsValue integerValue isHexC isDigitC star_cons_split)
+
+theorem cle (a b : Char) : a ≤ b ↔ a.toNat ≤ b.toNat := by
+  simp only [Char.le_def, UInt32.le_iff_toNat_le]; exact Iff.rfl
+
+theorem char_eq_of_toNat {a b : Char} (h : a.toNat = b.toNat) : a = b :=
+  Char.ext (UInt32.toNat_inj.1 h)
+
+theorem digitVal_facts (c : Char) :
+    (48 ≤ c.toNat ∧ c.toNat ≤ 57 → digitVal? c = some (c.toNat - 48) ∧ digitValue c = c.toNat - 48) ∧
+    (97 ≤ c.toNat ∧ c.toNat ≤ 102 → digitVal? c = some (c.toNat - 87) ∧ digitValue c = c.toNat - 87) ∧
+    (65 ≤ c.toNat ∧ c.toNat ≤ 70 → digitVal? c = some (c.toNat - 55) ∧ digitValue c = c.toNat - 55) := by
+  have e : '0'.toNat = 48 ∧ '9'.toNat = 57 ∧ 'a'.toNat = 97 ∧ 'f'.toNat = 102 ∧ 'z'.toNat = 122 ∧ 'A'.toNat = 65 ∧
+      'F'.toNat = 70 ∧ 'Z'.toNat = 90 := ⟨rfl, rfl, rfl, rfl, rfl, rfl, rfl, rfl⟩
+  simp only [digitVal?, digitValue, Bool.and_eq_true, decide_eq_true_eq, cle, e]
+  refine ⟨fun h => ?_, fun h => ?_, fun h => ?_⟩
+  · rw [if_pos h, if_neg (by omega), if_neg (by omega)]; exact ⟨rfl, rfl⟩
+  · rw [if_neg (by omega), if_pos (by omega), if_pos h]; exact ⟨rfl, rfl⟩
+  · rw [if_neg (by omega), if_neg (by omega), if_pos (by omega), if_neg (by omega), if_pos h]; exact ⟨rfl, rfl⟩
+
+theorem isDigit_iff (c : Char) : isDigit c = true ↔ 48 ≤ c.toNat ∧ c.toNat ≤ 57 := by
+  simp only [isDigit, Bool.and_eq_true, decide_eq_true_eq, cle]
+  exact Iff.rfl
+
+theorem lower_toNat (c : Char) : (lower c).toNat = if 65 ≤ c.toNat ∧ c.toNat ≤ 90 then c.toNat + 32 else c.toNat := by
+  simp only [lower, Bool.and_eq_true, decide_eq_true_eq, cle]
+  have e : 'A'.toNat = 65 ∧ 'Z'.toNat = 90 := ⟨rfl, rfl⟩
+  simp only [e]
+  split
+  · apply toNat_ofNat_valid
+    simp only [Nat.isValidChar]; omega
+  · rfl
+
+/-- a character the conversion may meet: an underscore, or a digit of base `b` on whose value `int()` and the
+    reference agree -/
+def Good (b : Nat) (x : Char) : Prop :=
+  x = '_' ∨ (x ≠ '_' ∧ ∃ d, digitVal? x = some d ∧ d < b ∧ digitValue x = d)
+
+theorem good_of_range (b : Nat) (c : Char) (lo hi off : Nat)
+    (hr : lo ≤ c.toNat ∧ c.toNat ≤ hi) (hb : hi - off < b)
+    (hcase : (lo = 48 ∧ hi ≤ 57 ∧ off = 48) ∨ (lo = 97 ∧ hi ≤ 102 ∧ off = 87) ∨ (lo = 65 ∧ hi ≤ 70 ∧ off = 55)) :
+    Good b c := by
+  have hne : c ≠ '_' := by
+    intro e; rw [e] at hr
+    have : '_'.toNat = 95 := rfl
+    omega
+  refine Or.inr ⟨hne, c.toNat - off, ?_, by omega, ?_⟩
+  · rcases hcase with ⟨rfl, h, rfl⟩ | ⟨rfl, h, rfl⟩ | ⟨rfl, h, rfl⟩
+    · exact ((digitVal_facts c).1 ⟨hr.1, by omega⟩).1
+    · exact ((digitVal_facts c).2.1 ⟨hr.1, by omega⟩).1
+    · exact ((digitVal_facts c).2.2 ⟨hr.1, by omega⟩).1
+  · rcases hcase with ⟨rfl, h, rfl⟩ | ⟨rfl, h, rfl⟩ | ⟨rfl, h, rfl⟩
+    · exact ((digitVal_facts c).1 ⟨hr.1, by omega⟩).2
+    · exact ((digitVal_facts c).2.1 ⟨hr.1, by omega⟩).2
+    · exact ((digitVal_facts c).2.2 ⟨hr.1, by omega⟩).2
+
+theorem good_isDigit (c : Char) (h : isDigit c = true) : Good 10 c :=
+  good_of_range 10 c 48 57 48 ((isDigit_iff c).1 h) (by decide) (Or.inl ⟨rfl, by decide, rfl⟩)
+
+theorem good_isBin (c : Char) (h : isBin c = true) : Good 2 c := by
+  simp only [isBin, Bool.or_eq_true, beq_iff_eq] at h
+  rcases h with rfl | rfl
+  · exact good_of_range 2 '0' 48 48 48 ⟨by decide, by decide⟩ (by decide) (Or.inl ⟨rfl, by decide, rfl⟩)
+  · exact good_of_range 2 '1' 48 49 48 ⟨by decide, by decide⟩ (by decide) (Or.inl ⟨rfl, by decide, rfl⟩)
+
+theorem good_isOct (c : Char) (h : isOct c = true) : Good 8 c := by
+  simp only [isOct, Bool.and_eq_true, decide_eq_true_eq, cle] at h
+  exact good_of_range 8 c 48 55 48 h (by decide) (Or.inl ⟨rfl, by decide, rfl⟩)
+
+theorem isHex_cases (c : Char) (h : Lex.isHex c = true) :
+    (48 ≤ c.toNat ∧ c.toNat ≤ 57) ∨ (97 ≤ c.toNat ∧ c.toNat ≤ 102) ∨ (65 ≤ c.toNat ∧ c.toNat ≤ 70) := by
+  simp only [Lex.isHex, Bool.or_eq_true, Bool.and_eq_true, decide_eq_true_eq, cle, lower_toNat] at h
+  rcases h with h | h
+  · exact Or.inl ((isDigit_iff c).1 h)
+  · have e : 'a'.toNat = 97 ∧ 'f'.toNat = 102 := ⟨rfl, rfl⟩
+    rw [e.1, e.2] at h
+    split at h <;> omega
+
+theorem good_isHex (c : Char) (h : Lex.isHex c = true) : Good 16 c := by
+  rcases isHex_cases c h with h | h | h
+  · exact good_of_range 16 c 48 57 48 h (by decide) (Or.inl ⟨rfl, by decide, rfl⟩)
+  · exact good_of_range 16 c 97 102 87 h (by decide) (Or.inr (Or.inl ⟨rfl, by decide, rfl⟩))
+  · exact good_of_range 16 c 65 70 55 h (by decide) (Or.inr (Or.inr ⟨rfl, by decide, rfl⟩))
+
+theorem isHexC_of_isHex (c : Char) (h : Lex.isHex c = true) : isHexC c = true := by
+  have e : '0'.toNat = 48 ∧ '9'.toNat = 57 ∧ 'a'.toNat = 97 ∧ 'f'.toNat = 102 ∧ 'A'.toNat = 65 ∧ 'F'.toNat = 70 :=
+    ⟨rfl, rfl, rfl, rfl, rfl, rfl⟩
+  simp only [isHexC, isDigitC, Bool.or_eq_true, Bool.and_eq_true, decide_eq_true_eq, cle, e]
+  rcases isHex_cases c h with h | h | h
+  · exact Or.inl (Or.inl h)
+  · exact Or.inl (Or.inr h)
+  · exact Or.inr h
+
+theorem digitsAcc_strip (b : Nat) : ∀ (ds : Str) (acc : Nat), (∀ x ∈ ds, Good b x) →
+    digitsAcc b acc (stripUnderscores ds) = some (digitsValueFrom b acc ds)
+  | [], _, _ => rfl
+  | c :: r, acc, h => by
+    have ih := fun acc' => digitsAcc_strip b r acc' (fun x hx => h x (by simp [hx]))
+    rcases h c (by simp) with rfl | ⟨hne, d, hd, hlt, hv⟩
+    · have : stripUnderscores ('_' :: r) = stripUnderscores r := by simp [stripUnderscores]
+      rw [this, ih]; simp [digitsValueFrom]
+    · have : stripUnderscores (c :: r) = c :: stripUnderscores r := by simp [stripUnderscores, hne]
+      rw [this]
+      simp only [digitsAcc, hd, hlt, if_true, ih]
+      have hb : (c == '_') = false := by simp [hne]
+      simp [digitsValueFrom, hb, hv]
+
+-- `(_?[digits])+` against `(["_"] digit)*` ------------------------------------------------------------------------
+
+def itemG (ok : Char → Bool) : G := .seq (G.opt (G.lit '_')) (.cls ok)
+
+theorem item_plain {ok : Char → Bool} {c : Char} (h : ok c = true) : Derives (itemG ok) [c] :=
+  Derives.seq (s := []) (t := [c]) (.altR .eps) (.cls h)
+
+theorem item_under {ok : Char → Bool} {c : Char} (h : ok c = true) : Derives (itemG ok) ['_', c] :=
+  Derives.seq (s := ['_']) (t := [c]) (.altL (.cls (by simp))) (.cls h)
+
+theorem uDigits_derives (ok ok' : Char → Bool) (hok : ∀ c, ok c = true → ok' c = true) (s : Str) :
+    Derives (.star (itemG ok')) (uDigits ok s).1 := by
+  fun_induction uDigits ok s with
+  | case1 c r h ih => exact Derives.starCons (s := ['_', c]) (item_under (hok c h)) ih
+  | case2 c r h => exact .starNil
+  | case3 c r _ h ih =>
+    simp only [Bool.and_eq_true] at h
+    exact Derives.starCons (s := [c]) (item_plain (hok c h.2)) ih
+  | case4 c r _ h => exact .starNil
+  | case5 => exact .starNil
+
+theorem uDigits_chars (ok : Char → Bool) (s : Str) : ∀ x ∈ (uDigits ok s).1, x = '_' ∨ ok x = true := by
+  fun_induction uDigits ok s with
+  | case1 c r h ih =>
+    intro x hx
+    simp only [List.mem_cons] at hx
+    rcases hx with rfl | rfl | hx
+    · exact Or.inl rfl
+    · exact Or.inr h
+    · exact ih x hx
+  | case2 c r h => intro x hx; simp at hx
+  | case3 c r _ h ih =>
+    simp only [Bool.and_eq_true] at h
+    intro x hx
+    simp only [List.mem_cons] at hx
+    rcases hx with rfl | hx
+    · exact Or.inr h.2
+    · exact ih x hx
+  | case4 c r _ h => intro x hx; simp at hx
+  | case5 => intro x hx; simp at hx
+
+theorem uDigits_has (ok : Char → Bool) (s : Str) (h : (uDigits ok s).1 ≠ []) : ∃ x ∈ (uDigits ok s).1, ok x = true := by
+  fun_induction uDigits ok s with
+  | case1 c r hc ih => exact ⟨c, by simp, hc⟩
+  | case2 c r hc => exact absurd rfl h
+  | case3 c r _ hc ih =>
+    simp only [Bool.and_eq_true] at hc
+    exact ⟨c, by simp, hc.2⟩
+  | case4 c r _ hc => exact absurd rfl h
+  | case5 => exact absurd rfl h
+
+theorem star_plus {a : G} {s : Str} (h : Derives (.star a) s) (hne : s ≠ []) : Derives (G.plus a) s := by
+  cases s with
+  | nil => exact absurd rfl hne
+  | cons c s =>
+    obtain ⟨s1, s2, hs, h1, h2⟩ := star_cons_split h c s rfl
+    rw [hs, ← List.cons_append]
+    exact Derives.seq h1 h2
+
+theorem matchPrefInt_shape (x : Char) (ok : Char → Bool) (s m r : Str) (h : matchPrefInt x ok s = some (m, r)) :
+    ∃ p t, lower p = x ∧ m = '0' :: p :: (uDigits ok t).1 ∧ (uDigits ok t).1 ≠ [] := by
+  unfold matchPrefInt at h
+  split at h
+  · rename_i z p t
+    split at h
+    · rename_i hz
+      simp only [Bool.and_eq_true, beq_iff_eq] at hz
+      split at h
+      · cases h
+      · rename_i hne
+        simp only [Option.some.injEq, Prod.mk.injEq] at h
+        refine ⟨p, t, hz.2, ?_, by simpa using hne⟩
+        rw [← h.1, hz.1]
+    · cases h
+  · cases h
+
+theorem lower_eq (p k : Char) (h : lower p = k) :
+    p = k ∨ p.toNat + 32 = k.toNat := by
+  have := lower_toNat p
+  rw [h] at this
+  split at this
+  · exact Or.inr this.symm
+  · exact Or.inl (char_eq_of_toNat this.symm)
+
+theorem prefInt_value (p : Char) (base : Nat) (ds : Str)
+    (hp : ((p = 'b' ∨ p = 'B') ∧ base = 2) ∨ ((p = 'o' ∨ p = 'O') ∧ base = 8) ∨ ((p = 'x' ∨ p = 'X') ∧ base = 16))
+    (hg : ∀ x ∈ ds, Good base x) (hne : stripUnderscores ds ≠ []) :
+    intValue ('0' :: p :: ds) = some (integerValue ('0' :: p :: ds)) := by
+  have hv := digitsAcc_strip base ds 0 hg
+  have hl : lower 'b' = 'b' ∧ lower 'B' = 'b' ∧ lower 'o' = 'o' ∧ lower 'O' = 'o' ∧ lower 'x' = 'x' ∧ lower 'X' = 'x' := by
+    decide
+  have hemp : (stripUnderscores ds).isEmpty = false := by
+    cases h : stripUnderscores ds with
+    | nil => exact absurd h hne
+    | cons _ _ => rfl
+  rcases hp with ⟨rfl | rfl, rfl⟩ | ⟨rfl | rfl, rfl⟩ | ⟨rfl | rfl, rfl⟩ <;>
+  · simp [intValue, stripUnderscores, intBase0, hl] 
+    simp [stripUnderscores] at hv hemp
+    simp [hemp, hv, integerValue, digitsValue]
+
+theorem intBase0_nonzero (c : Char) (r : Str) (h : c ≠ '0') : intBase0 (c :: r) = digitsAcc 10 0 (c :: r) := by
+  unfold intBase0
+  split
+  · rename_i heq; cases heq
+  · rename_i heq; cases heq; exact absurd rfl h
+  · rename_i heq
+    cases heq
+    simp [h]
+
+theorem integerValue_default (c : Char) (r : Str) (h : c ≠ '0' ∨ ∀ x ∈ r, x = '_' ∨ x = '0') :
+    integerValue (c :: r) = digitsValue 10 (c :: r) := by
+  unfold integerValue
+  split
+  all_goals first
+    | rfl
+    | (rename_i heq; cases heq
+       rcases h with h | h
+       · exact absurd rfl h
+       · have := h _ List.mem_cons_self; exact absurd this (by decide))
+
+theorem intBase0_zeros : ∀ (z : Str), (∀ x ∈ z, x = '0') → intBase0 ('0' :: z) = some 0
+  | [], _ => rfl
+  | p :: ds, h => by
+    have hp : p = '0' := h p (by simp)
+    subst hp
+    have hall : (('0' :: ds).all (· == '0')) = true := by
+      simp only [List.all_eq_true, beq_iff_eq]
+      exact h
+    have hl : (lower '0' == 'b') = false ∧ (lower '0' == 'o') = false ∧ (lower '0' == 'x') = false := by decide
+    simp only [intBase0, hl, hall]
+    simp
+
+theorem zeros_value : ∀ (z : Str) , (∀ x ∈ z, x = '_' ∨ x = '0') → digitsValueFrom 10 0 z = 0
+  | [], _ => rfl
+  | c :: r, h => by
+    have ih := zeros_value r (fun x hx => h x (by simp [hx]))
+    rcases h c (by simp) with rfl | rfl
+    · simpa [digitsValueFrom] using ih
+    · have : digitValue '0' = 0 := by decide
+      simpa [digitsValueFrom, this] using ih
+
+theorem strip_cons_ne (c : Char) (r : Str) (h : c ≠ '_') : stripUnderscores (c :: r) = c :: stripUnderscores r := by
+  simp [stripUnderscores, h]
+
+theorem strip_has {s : Str} {x : Char} (hx : x ∈ s) (hne : x ≠ '_') : stripUnderscores s ≠ [] := by
+  intro e
+  have : x ∈ stripUnderscores s := by simp [stripUnderscores, hx, hne]
+  rw [e] at this
+  simp at this
+
+/-- a prefixed integer: grammar and value -/
+theorem prefInt_python (x X : Char) (base : Nat) (ok ok' : Char → Bool) (s m r : Str)
+    (hxX : (x = 'b' ∧ X = 'B' ∧ base = 2) ∨ (x = 'o' ∧ X = 'O' ∧ base = 8) ∨ (x = 'x' ∧ X = 'X' ∧ base = 16))
+    (hcls : ∀ c, ok c = true → ok' c = true) (hgood : ∀ c, ok c = true → Good base c)
+    (hund : ok '_' = false)
+    (h : matchPrefInt x ok s = some (m, r)) :
+    Derives (.seq (G.lit '0') (.seq (.alt (G.lit x) (G.lit X)) (G.plus (itemG ok')))) m ∧
+    intValue m = some (integerValue m) := by
+  obtain ⟨p, t, hp, hm, hne⟩ := matchPrefInt_shape x ok s m r h
+  have hpx : p = x ∨ p = X := by
+    rcases lower_eq p x hp with h | h
+    · exact Or.inl h
+    · right
+      rcases hxX with ⟨rfl, rfl, _⟩ | ⟨rfl, rfl, _⟩ | ⟨rfl, rfl, _⟩ <;> exact char_eq_of_toNat (by
+        have e : 'b'.toNat = 98 ∧ 'B'.toNat = 66 ∧ 'o'.toNat = 111 ∧ 'O'.toNat = 79 ∧ 'x'.toNat = 120 ∧ 'X'.toNat = 88 :=
+          ⟨rfl, rfl, rfl, rfl, rfl, rfl⟩
+        omega)
+  subst hm
+  constructor
+  · have hd := star_plus (uDigits_derives ok ok' hcls t) hne
+    have hpd : Derives (.alt (G.lit x) (G.lit X)) [p] := by
+      rcases hpx with rfl | rfl
+      · exact .altL (.cls (by simp))
+      · exact .altR (.cls (by simp))
+    exact Derives.seq (s := ['0']) (.cls (by simp)) (Derives.seq (s := [p]) hpd hd)
+  · obtain ⟨y, hy, hoky⟩ := uDigits_has ok t hne
+    have hyne : y ≠ '_' := by intro e; rw [e, hund] at hoky; cases hoky
+    apply prefInt_value p base _ _ _ (strip_has hy hyne)
+    · rcases hxX with ⟨rfl, rfl, rfl⟩ | ⟨rfl, rfl, rfl⟩ | ⟨rfl, rfl, rfl⟩
+      · exact Or.inl ⟨hpx, rfl⟩
+      · exact Or.inr (Or.inl ⟨hpx, rfl⟩)
+      · exact Or.inr (Or.inr ⟨hpx, rfl⟩)
+    · intro z hz
+      rcases uDigits_chars ok t z hz with rfl | hz
+      · exact Or.inl rfl
+      · exact hgood z hz
+
+/-- a decimal integer: grammar and value -/
+theorem decInt_python (s m r : Str) (h : matchDecInt s = some (m, r)) :
+    Derives JinjaV.Spec.PyLit.decinteger m ∧ intValue m = some (integerValue m) := by
+  unfold matchDecInt at h
+  split at h
+  · rename_i c t
+    split at h
+    · rename_i h19
+      simp only [Option.some.injEq, Prod.mk.injEq] at h
+      have hm := h.1.symm
+      subst hm
+      simp only [Bool.and_eq_true, decide_eq_true_eq] at h19
+      have hc0 : c ≠ '0' := by
+        intro e; rw [e] at h19; exact absurd h19.1 (by decide)
+      have hcd : isDigit c = true := by
+        simp only [isDigit, Bool.and_eq_true, decide_eq_true_eq]
+        exact ⟨Char.le_trans (by decide) h19.1, h19.2⟩
+      have hcu : c ≠ '_' := by
+        intro e; rw [e] at h19; exact absurd h19.2 (by decide)
+      constructor
+      · refine .altL (Derives.seq (s := [c]) (.cls ?_) (uDigits_derives isDigit _ (fun _ h => h) t))
+        simp only [JinjaV.Spec.PyLit.isNonzeroC, Bool.and_eq_true, decide_eq_true_eq]
+        exact h19
+      · have hg : ∀ x ∈ c :: (uDigits isDigit t).1, Good 10 x := by
+          intro x hx
+          simp only [List.mem_cons] at hx
+          rcases hx with rfl | hx
+          · exact good_isDigit _ hcd
+          · rcases uDigits_chars isDigit t x hx with rfl | hx
+            · exact Or.inl rfl
+            · exact good_isDigit _ hx
+        have hv := digitsAcc_strip 10 _ 0 hg
+        unfold intValue
+        rw [strip_cons_ne c _ hcu, intBase0_nonzero c _ hc0, ← strip_cons_ne c _ hcu, hv,
+          integerValue_default c _ (Or.inl hc0)]
+        rfl
+    · split at h
+      · rename_i h0
+        simp only [beq_iff_eq] at h0
+        subst h0
+        simp only [Option.some.injEq, Prod.mk.injEq] at h
+        have hm := h.1.symm
+        subst hm
+        have hz : ∀ x ∈ (uDigits (· == '0') t).1, x = '_' ∨ x = '0' := by
+          intro x hx
+          rcases uDigits_chars _ t x hx with h | h
+          · exact Or.inl h
+          · exact Or.inr (by simpa using h)
+        constructor
+        · refine .altR (Derives.seq (s := ['0']) ?_ (uDigits_derives (· == '0') _ (fun _ h => h) t))
+          exact Derives.seq (s := ['0']) (t := []) (.cls (by simp)) .starNil
+        · have hs : ∀ x ∈ stripUnderscores (uDigits (· == '0') t).1, x = '0' := by
+            intro x hx
+            simp only [stripUnderscores, List.mem_filter, bne_iff_ne, ne_eq] at hx
+            rcases hz x hx.1 with h | h
+            · exact absurd h hx.2
+            · exact h
+          unfold intValue
+          rw [strip_cons_ne '0' _ (by decide), intBase0_zeros _ hs, integerValue_default '0' _ (Or.inr hz)]
+          have : digitsValue 10 ('0' :: (uDigits (· == '0') t).1) = 0 := by
+            have hd0 : digitValue '0' = 0 := by decide
+            have := zeros_value _ hz
+            simpa [digitsValue, digitsValueFrom, hd0] using this
+          rw [this]
+      · cases h
+  · cases h
+
+end numbers
+
 end JinjaV.Literal
